@@ -20,7 +20,7 @@ import numpy as np
 from .. import core, comps, plants
 from ..core import enc, dec, close, frac
 from feems.components_model.component_base import BasicComponent, SerialSystem
-from feems.components_model.component_electric import ElectricMachine, SerialSystemElectric, PTIPTO
+from feems.components_model.component_electric import ElectricComponent, ElectricMachine, SerialSystemElectric, PTIPTO
 from feems.components_model.component_mechanical import MechanicalPropulsionComponent
 from feems.types_for_feems import TypeComponent, TypePower, Power_kW, Speed_rpm, SwbId
 
@@ -239,9 +239,31 @@ def conv_checks(ctx, comp, rated, curve, powers, where, strict=False, label=""):
         prev = back
 
 
+def curve_ownership_check(ctx, case, where):
+    """The component owns its characteristic: the array the caller handed over is neither changed by the constructor nor read
+    again later (a caller may reuse one scratch array to build several components, or rescale it afterwards)."""
+    arr = comps.curve_array(case["curve"])
+    given = arr.copy()
+    rated = case["rated"]
+    comp = ElectricComponent(type_=TypeComponent.POWER_CONVERTER, name="own", rated_power=Power_kW(rated), eff_curve=arr,
+                             power_type=TypePower.NONE, switchboard_id=SwbId(1))
+    if not np.array_equal(arr, given):
+        ctx.fail("predicate", "constructor-changes-callers-curve", f"{given.tolist()} -> {arr.tolist()}", where)
+        return
+    ps = [float(p) for p in case["powers"][:6]]
+    before = [(float(comp.get_power_input_from_bidirectional_output(p)[0]), float(comp.get_power_output_from_bidirectional_input(p)[0])) for p in ps]
+    arr *= 0.9          # the caller's own array, updated in place after construction
+    after = [(float(comp.get_power_input_from_bidirectional_output(p)[0]), float(comp.get_power_output_from_bidirectional_input(p)[0])) for p in ps]
+    ctx.count("curve_ownership", "single-value" if arr.ndim == 1 else "points")
+    if before != after:
+        ctx.fail("predicate", "component-reads-callers-curve-array", f"conversions of {ps} changed from {before} to {after} when the caller's array was rescaled", where)
+
+
 def run_case(ctx, case, model=True):
     where = {"case": case}
     ctx.use_model = model
+    if case["kind"] == "basic":
+        curve_ownership_check(ctx, case, where)
     k, rated = case["kind"], case["rated"]
     ctx.count("kind", k + (":" + case["role"] if k == "machine" else "") + (":equal" if case.get("equal_ratings") else ""))
     try:
